@@ -116,3 +116,46 @@ Theorem fscope_history : forall layers g h, Config_ok layers -> WellFormed layer
             fscope (final (init layers g) h) i s = filter (fun q => vis_get q (st_vis (final (init layers g) h))) l /\
             from_root (fscope (final (init layers g) h) i s) = rev (filter (fun q => vis_get q (st_vis (final (init layers g) h))) l).
 Proof. intros layers g h HL HW HO i s sl. apply (fscope_spec _ _ _ i s sl (H_inv layers g h HL HW HO)). Qed.
+
+(* ---------------------------------------------------------------- an explicit parent that does not resolve *)
+(** an event with an EXPLICIT parent Id (the retained Id of span number q, possibly stale): the explicit parent overrides the
+    contextual one — if the Id does not resolve in this registry (the span has closed; its slot may have been recycled) the
+    event has NO span and an empty scope, whatever the thread's current span is; the same for the filtered layer when the
+    Id resolves to a span its filter disabled *)
+Theorem eventq_unresolved : forall st t q i j p, st_panicked st = false -> eff st t false = Some i ->
+  find_seq q (st_created st) = Some (j, p) ->
+  (lookup st i p = None -> exists cur d fo, step st (OEventQ t q) = (st, [OEvent i cur None [] [] d; fo])) /\
+  (enabled_for st i p = false -> exists eo cur, step st (OEventQ t q) = (st, [eo; OFEvent i cur None [] []])).
+Proof.
+  intros st t q i j p NP Ef F. unfold step. rewrite NP. simpl. unfold do_eventq. rewrite Ef, F. split.
+  - intros L. unfold explicit_parent. rewrite L. simpl. eauto.
+  - intros E. unfold explicit_parent_filtered. rewrite E. simpl. eauto.
+Qed.
+
+Theorem eventq_resolved : forall st t q i j p, st_panicked st = false -> eff st t false = Some i ->
+  find_seq q (st_created st) = Some (j, p) -> lookup st i p <> None -> enabled_for st i p = true ->
+  exists cur fcur d, step st (OEventQ t q) =
+    (st, [OEvent i cur (seq_at st i p) (scope st i p) (rev (scope st i p)) d;
+          OFEvent i fcur (seq_at st i p) (fscope st i p) (rev (fscope st i p))]).
+Proof.
+  intros st t q i j p NP Ef F L E. unfold step. rewrite NP. simpl. unfold do_eventq. rewrite Ef, F.
+  unfold explicit_parent, explicit_parent_filtered. rewrite E. destruct (lookup st i p); [|congruence]. simpl. eauto.
+Qed.
+
+(** the same through a handle (OEvent_ / OFEvent_ with PExplicit) *)
+Theorem event_parent_unresolved : forall st i t hp,
+  match hget hp (st_handles st) with Some (HSpan _ p) => lookup st i p = None | _ => True end ->
+  event_parent st i t (PExplicit hp) = None.
+Proof.
+  intros st i t hp H. unfold event_parent. destruct (hget hp (st_handles st)) as [[|j p]|]; auto. rewrite H. reflexivity.
+Qed.
+
+(** and, along every history: once a span has been reported closed its Id never resolves again *)
+Theorem closed_parent_unresolved : forall layers g h, Config_ok layers -> WellFormed layers g h -> OwnDefault layers g h ->
+  forall i p q l, In (i, p, q) (st_created (final (init layers g) h)) -> closed_n l q (trace (init layers g) h) = 1 ->
+  explicit_parent (final (init layers g) h) i p = None /\ explicit_parent_filtered (final (init layers g) h) i p = None.
+Proof.
+  intros layers g h HL HW HO i p q l Ic C.
+  assert (L : lookup (final (init layers g) h) i p = None) by (eapply (gone_after _ _ (H_inv layers g h HL HW HO)); eauto).
+  unfold explicit_parent, explicit_parent_filtered, enabled_for. rewrite L. auto.
+Qed.
